@@ -2,6 +2,7 @@
 """mut.py <file> <old> <new> <prop> [<prop>...] [--tests] : copy /repo to a scratch dir, apply one textual
 replacement, optionally run the repository tests on it, run the quick checks against it (VERIF_REPO), clean up."""
 import sys, os, subprocess, shutil, tempfile
+ROOT = os.path.dirname(os.path.dirname(os.path.abspath(__file__)))
 args = [a for a in sys.argv[1:] if a != "--tests"]
 tests = "--tests" in sys.argv
 f, old, new, props = args[0], args[1], args[2], args[3:]
@@ -17,11 +18,11 @@ try:
     if tests:
         r = subprocess.run("go test -vet=off -count=1 ./... 2>&1 | tail -8", shell=True, cwd=d, env=env)
     for pr in props:
-        r = subprocess.run(["/verif/check", "quick", pr], env=dict(env, VERIF_REPO=d), capture_output=True, text=True)
+        r = subprocess.run([os.path.join(ROOT, "check"), "quick", pr], env=dict(env, VERIF_REPO=d), capture_output=True, text=True)
         lines = (r.stdout + r.stderr).strip().split("\n")
         print("== %s rc=%d" % (pr, r.returncode))
         for l in lines[:6]:
             print("   " + l[:400])
 finally:
     shutil.rmtree(d, ignore_errors=True)
-    subprocess.run("git -C /verif checkout -- evidence 2>/dev/null", shell=True)
+    subprocess.run("git -C %s checkout -- evidence 2>/dev/null" % ROOT, shell=True)
